@@ -21,6 +21,10 @@ The adapter is a stack machine over `item_stack : Vec<ASTType>`. Every adapter f
    `Some(..)` / `None`), calls the user action of its non-terminal if there is one, and pushes
    `ASTType::<Nt>(value)`.
 
+A user action exists for every non-terminal of the grammar *as written* (`add_user_actions` over
+`grammar_config.non_terminals`), and `generate_user_action_call` puts the call into every adapter
+function of such a non-terminal — not only the start symbol's.
+
 The machine consumes the post-order action trace `(production, children)` the parsers emit
 (`Model/LL.lean`, `Model/LR.lean`; `Props/C02.ll_tree_actions`).
 
